@@ -47,7 +47,7 @@ class DynamicSGEDecider(SynthesisDecider):
         self.validate()
 
     def read(self, ty):
-        v = self.genotype.get(ty, self.positions[ty])
+        v = self.genotype.get(ty, self.positions.setdefault(ty, 0))
         self.positions[ty] += 1
         return v
 
